@@ -70,7 +70,9 @@ UnitOff(u) == CASE u = 22 -> <<-33, 2>> [] u = 23 -> <<-17, 4>> [] OTHER -> RZer
 \* exponent used only to order them (is the factor from -> to above or below one?)
 \* 4 km, 5 mile, 6 cm, 7 mm, 8 Mm, 9 ym, 10 Ym, 12 l_pl (np.float64), 13 Wh (int), 14 J, 15 dB (np.float64), 16 B (np.float64)
 \* 17 N, 18 kg*m/s**2 (the same scale under another name), 19 degC, 20 degF, 21 K (offsets), 24 dyn, 25 g*cm/s**2
-RealRank(u) == CASE u \in {17, 18, 21, 24, 25} -> 0 [] u = 19 -> 1 [] u = 20 -> -1 [] u = 1 -> 0 [] u = 4 -> 30 [] u = 5 -> 32 [] u = 6 -> -20 [] u = 7 -> -30 [] u = 8 -> 60 [] u = 9 -> -240
+\* electromagnetic units (round 7b): 26 A, 27 statA, 28 mA, 29 T, 30 G, 31 kV, 32 V, 33 uC, 34 C
+EMUnits == 26..34
+RealRank(u) == CASE u \in {17, 18, 21, 24, 25, 26, 29, 32, 34} -> 0 [] u = 27 -> -95 [] u = 28 -> -30 [] u = 30 -> -40 [] u = 31 -> 30 [] u = 33 -> -60 [] u = 19 -> 1 [] u = 20 -> -1 [] u = 1 -> 0 [] u = 4 -> 30 [] u = 5 -> 32 [] u = 6 -> -20 [] u = 7 -> -30 [] u = 8 -> 60 [] u = 9 -> -240
                  [] u = 10 -> 240 [] u = 12 -> -350 [] u = 13 -> 36 [] u = 14 -> 0 [] u = 15 -> -10 [] u = 16 -> 0
 RealDir(from, to) == IF RealRank(from) > RealRank(to) THEN 1 ELSE -1
 Factor(from, to) == UnitExp(from) - UnitExp(to)
@@ -173,6 +175,16 @@ ConvOut(route, d, vcs, k, shape) ==
     [] route = "to_value" -> ToValueOut(d, vcs, shape)
     [] route \in {"in_base", "in_mks", "in_cgs"} -> InBaseOut(d, vcs)
     [] route \in InPlaceRoutes -> InPlaceOut(d, vcs, k)
+
+\* E&M units reach in_base / in_mks / in_cgs through a branch of their own (unyt_array.in_base, `if any(conv_data)`):
+\* data already in the system's unit come back as self.copy() (dtype untouched), everything else as
+\* type(self)(self.v * conv, to_units) - integers become float64, no LARGE_INPUT test.  Repair "embase": that branch
+\* ends in in_units(to_units) like the other one.  All other routes treat E&M pairs like any pair.
+ConvOutEM(route, d, vcs, k, shape, em, ident) ==
+  IF em /\ route \in {"in_base", "in_mks", "in_cgs"} /\ "embase" \notin Fixes THEN
+     (IF ident THEN Ret(Kind(d), Size(d), FALSE, FALSE, TRUE)
+      ELSE IF IsInt(d) THEN Ret("f", 8, FALSE, FALSE, TRUE) ELSE Ret(Kind(d), Size(d), FALSE, FALSE, TRUE))
+  ELSE ConvOut(route, d, vcs, k, shape)
 
 \* ---------------------------------------------------------------- binary ufuncs (transitions)
 ArithOps == {"add", "subtract", "maximum", "minimum"}
